@@ -38,6 +38,8 @@ def hitsound_copy(osu_src: OsuMap, osu_tgt: OsuMap) -> OsuMap:
 
     # Before we group, we want to split the hitsound_file to clap,
     # finish and whistle (2, 4, 8)
+    # Stacking / rate changes widen the integer columns to float
+    df_src["hitsound_set"] = df_src["hitsound_set"].astype(int)
     df_src["hitsound_clap"] = np.where(
         df_src["hitsound_set"] & HS_CLAP == HS_CLAP, HS_CLAP, 0
     )
